@@ -1139,6 +1139,52 @@ def listAttrs (fx : Fixes) : List Attribute → Out (List ApiAttr)
       | .err => .err
       | .panic => .panic
 
+/-! ### the RPKI state ListPath shows (`collect_paths` phase 2 -> `RpkiTable::validate` -> `rpki_validation_to_api`) -/
+
+/-- a VRP of the RTR table (IPv4): prefix, max length, origin AS -/
+structure Vrp where
+  addr : Nat
+  len : Nat
+  maxLen : Nat
+  asn : Nat
+  deriving DecidableEq, Repr
+
+inductive RState where
+  | notFound | valid | invalidAsn | invalidLen
+  deriving DecidableEq, Repr
+
+/-- `RpkiTable::as_path_final_segment_type` -/
+def finalSegType : Bytes → Option Nat → Option Nat
+  | t :: l :: rest, _ => finalSegType (rest.drop (l * 4)) (some t)
+  | _, acc => acc
+termination_by bs => bs.length
+decreasing_by simp only [List.length_drop, List.length_cons]; omega
+
+/-- `RpkiTable::validate` for an IPv4 route inserted by AddPath (source = `Source::local()`, whose
+    `local_asn` is 0) against a non-empty IPv4 VRP table; `none` = no validation shown -/
+def rpkiShown (vrps : List Vrp) (n : Nlri) (stored : List Attribute) : Out (Option RState) :=
+  match n with
+  | .v4 a m =>
+      if vrps.isEmpty then .ok none
+      else do
+        let origin : Option Nat ←
+          (match findCode 2 stored with
+           | some p => do
+               let o ← asPathOrigin p
+               match o with
+               | some asn => pure (some asn)
+               | none =>
+                   let b ← unwrapO p.binary
+                   pure (if finalSegType b none = some 1 then none else some 0)
+           | none => pure (some 0))
+        let cand := vrps.filter fun v => v.len ≤ m ∧ a / 2 ^ (32 - v.len) = v.addr / 2 ^ (32 - v.len)
+        let matched := cand.any fun v => m ≤ v.maxLen ∧ v.asn ≠ 0 ∧ some v.asn = origin
+        let unAsn := cand.any fun v => m ≤ v.maxLen ∧ ¬ (v.asn ≠ 0 ∧ some v.asn = origin)
+        let unLen := cand.any fun v => ¬ m ≤ v.maxLen
+        pure (some (if matched then .valid else if unAsn then .invalidAsn else if unLen then .invalidLen
+                    else .notFound))
+  | _ => .ok none
+
 /-! ## cases and observations -/
 
 inductive Case where
@@ -1146,7 +1192,7 @@ inductive Case where
   | attrApi (x : ApiAttr)
   | nlriWire (f : Fam) (bs : Bytes)
   | nlriApi (x : ApiNlri)
-  | grpc (x : ApiNlri) (attrs : List ApiAttr)    -- AddPath then ListPath through the real `GrpcService`
+  | grpc (x : ApiNlri) (attrs : List ApiAttr) (vrps : List Vrp)   -- AddPath then ListPath through the real `GrpcService`
   | explore (kind : String)        -- kinds outside the model: judged on the real observation only
   deriving Repr
 
@@ -1176,7 +1222,7 @@ inductive Obs where
   | decodePanic
   | nlris (l : List NlriObs)
   | addRefused                                  -- AddPath returned an error status
-  | listed (n : ApiNlri) (attrs : List ApiAttr) -- what ListPath shows for the one path added
+  | listed (n : ApiNlri) (attrs : List ApiAttr) (val : Option RState) -- what ListPath shows for the one path added
   | listPanic
   | exploreOk
   | exploreFail (why : String)
@@ -1231,15 +1277,15 @@ def run (fx : Fixes) : Case → Obs
       | .ok n => .nlris [nlriObs fx n]
       | .err => .fromErr
       | .panic => .fromPanic
-  | .grpc x attrs =>
+  | .grpc x attrs vrps =>
       match netFromApi fx x with
       | .ok n =>
           (match localPath fx attrs with
            | .ok stored =>
                if stored.all (fun a => modelledCode a.code) then
-                 match listAttrs fx stored with
-                 | .ok ys => .listed (nlriToApi n) ys
-                 | _ => .listPanic
+                 match listAttrs fx stored, rpkiShown vrps n stored with
+                 | .ok ys, .ok v => .listed (nlriToApi n) ys v
+                 | _, _ => .listPanic
                else .unmodelled
            | .err => .addRefused
            | .panic => .listPanic)
@@ -1253,7 +1299,9 @@ def Case.inRange : Case → Bool
   | .attrApi x => x.inRange
   | .nlriWire .. => true
   | .nlriApi x => x.inRange
-  | .grpc x attrs => x.inRange && attrs.all ApiAttr.inRange
+  | .grpc x attrs vrps =>
+      x.inRange && attrs.all ApiAttr.inRange &&
+        vrps.all fun v => u32 v.addr && v.len ≤ 32 && v.maxLen ≤ 255 && u32 v.asn
   | .explore _ => true
 
 /-- the code as it is in /repo now (with the C17 repairs of convert.rs) -/
